@@ -52,6 +52,12 @@ def Rngs.after (r : Rngs) : Nat → Rngs
   | 0 => r
   | i + 1 => (r.after i).draw.2
 
+theorem Rngs.after_src (r : Rngs) : ∀ i, (r.after i).src = r.src := by
+  intro i
+  induction i with
+  | zero => rfl
+  | succ i ih => simp only [Rngs.after, Rngs.draw, ih]
+
 theorem Rngs.after_streams (r : Rngs) : ∀ i, (r.after i).streams = r.streams.map fun nc => (nc.1, nc.2 + i) := by
   intro i
   induction i with
